@@ -395,6 +395,10 @@ func (cs *clientStream) doHttpCall(transport http.RoundTripper, req *http.Reques
 		}
 		defer cs.rMu.Unlock()
 
+		if rErr == io.EOF {
+			// the response ended before its trailer frame: it was cut short
+			rErr = io.ErrUnexpectedEOF
+		}
 		if rErr != nil && cs.rErr == nil {
 			cs.rErr = rErr
 		}
